@@ -18,31 +18,39 @@ def stores(fn, field):
     return res
 
 
-class NextLike:
-    """`next` and the private helper methods of the coin that advance it by calling next() on every path and hand its output on
-    (`fn next_u64(&mut self) -> u64 { let d = self.next(); .. }`)"""
+class Outputs:
+    """the coin's outputs inside (an inlined view of) a method: calls merge_with_int(seed, counter)"""
 
-    def __init__(self, prog, adt, nxt):
-        self.base = nxt
-        self.names = {nxt.nname}
-        for h in prog.methods_of(adt, None):
-            if h is nxt or h.get("impl_trait") or h.kind == "closure":
+    def __init__(self, f):
+        self.f = f
+        g = flow(f)
+        self.nodes = []
+        for b, t in f.calls():
+            if not (callee_name(t) or "").endswith("merge_with_int") or len(t["args"]) < 2:
                 continue
-            nb = [(b, T) for b, t in h.calls() if callee_name(t) == nxt.nname]
-            if nb and must_between(h, None, nb, rets(h))[0]:
-                g = flow(h)
-                ok = False
-                for b in (x for x, blk in enumerate(h.blocks) if blk["t"]["k"] == "return"):
-                    w = g.walk(ops=[{"copy": {"l": 0}}], at=(b, T))
-                    ok = ok or nxt.nname in g.callee_names_in(w)
-                if ok:
-                    self.names.add(h.nname)
+            w0 = g.walk(ops=[t["args"][0]], at=(b, T))
+            w1 = g.walk(ops=[t["args"][1]], at=(b, T))
+            if _field_in(g, w0, "seed") and _field_in(g, w1, "counter"):
+                self.nodes.append((b, T))
+        self.blocks = {b for b, _ in self.nodes}
 
     def is_call(self, t):
-        return callee_name(t) in self.names
+        return any(self.f.term(b) is t for b in self.blocks)
 
-    def among(self, names):
-        return bool(self.names & set(names))
+    def among_walk(self, w):
+        return any(n[0] == "c" and n[1] in self.blocks for n in w)
+
+    def incremented_before_each(self):
+        f = self.f
+        g = flow(f)
+        incs = []
+        for b, i, st in stores(f, "counter"):
+            w = g.walk(ops=g._rv_ops(st["rv"])[0], places=g._rv_ops(st["rv"])[1], at=(b, i))
+            if _field_in(g, w, "counter") and any(c.startswith("lit:1:") for c in g.consts_in(w)):
+                incs.append((b, S))
+        if not incs:
+            return False
+        return must_between(f, None, incs, self.nodes)[0] and must_between(f, self.nodes, incs, self.nodes)[0]
 
 
 class EStore:
@@ -121,14 +129,20 @@ def run(ck):
         label = (adt or im["self_ty"]).split("::")[-1]
         check_new(ck, prog, label, meth["new"])
         check_reseed(ck, prog, label, meth["reseed"])
-        nxt = [f for f in prog.methods_of(adt, None) if f.get("item_name") == "next"]
-        if len(nxt) != 1:
-            raise AnchorError(f"{label}: counter-mode expansion method `next` not found")
-        ck.saw(nxt[0])
-        check_next(ck, prog, label, nxt[0])
-        nl = NextLike(prog, adt, nxt[0])
-        check_draw(ck, prog, label, meth["draw"], nl)
-        check_draw_integers(ck, prog, label, meth["draw_integers"], nl)
+        # counter-mode expansion: an OUTPUT of the coin is a call merge_with_int(seed, counter). Whether that lives in a private
+        # `next()` or in the drawing methods themselves is immaterial: the methods are read with their private helpers inlined.
+        n_out = 0
+        for mname in ("draw", "draw_integers"):
+            fi = prog.inl(meth[mname])
+            ev = Outputs(fi)
+            n_out += len(ev.nodes)
+            ck.ob("STATE", f"{label}::{mname}:counter-advances-per-output", bool(ev.nodes) and ev.incremented_before_each(),
+                  f"{label}::{mname}: every output merge_with_int(seed, counter) is preceded, since the previous output (or entry), by "
+                  "counter += 1 — no two outputs use the same counter", loc=meth[mname].loc())
+            if mname == "draw":
+                check_draw(ck, prog, label, fi, ev)
+            else:
+                check_draw_integers(ck, prog, label, fi, ev)
         check_clz(ck, prog, label, meth["check_leading_zeros"])
     pow_complement(ck, prog)
     controls(ck, prog, impls)
@@ -201,7 +215,7 @@ def check_draw(ck, prog, label, f, nxt):
             continue
         for b, t in frb:
             aw = g.walk(ops=[t["args"][0]], at=(b, T))
-            if not nxt.among(g.callee_names_in(aw)):
+            if not nxt.among_walk(aw):
                 good = False
     ck.ob("DRAW", f"{label}::draw:validated", good,
           f"{label}::draw: every returned element is the Some payload of from_random_bytes applied to the output of next()", loc=f.loc())
@@ -225,8 +239,6 @@ def _idx_of(f, e):
 
 
 def check_draw_integers(ck, prog, label, f, nxt):
-    # private helpers (`next_masked_integer`, `reseed_with_int`) are part of the method; `next` stays a call (it is what the rule looks for)
-    f = prog.inl(f, keep=(nxt.base.id,))
     g = flow(f)
     ss = eff_stores(prog, f, "seed")
     cs = eff_stores(prog, f, "counter")
@@ -250,12 +262,12 @@ def check_draw_integers(ck, prog, label, f, nxt):
                 wa = g.walk(ops=[s["rv"]["a"]], at=(bb, i))
                 wb = g.walk(ops=[s["rv"]["b"]], at=(bb, i))
                 for x, y in ((wa, wb), (wb, wa)):
-                    if nxt.among(g.callee_names_in(x)) and any(f.local_name(p) == "domain_size" for p in g.params_in(y)) \
-                            and any(c.startswith("lit:1:") for c in g.consts_in(y)) and not nxt.among(g.callee_names_in(y)):
+                    if nxt.among_walk(x) and any(f.local_name(p) == "domain_size" for p in g.params_in(y)) \
+                            and any(c.startswith("lit:1:") for c in g.consts_in(y)) and not nxt.among_walk(y):
                         # and this BitAnd feeds the push
                         if ("l", 0) or True:
                             masked = masked or _feeds(g, f, s["lhs"]["l"], t["args"][1], (b, T))
-        if not (masked and nxt.among(g.callee_names_in(w))):
+        if not (masked and nxt.among_walk(w)):
             okp = False
     ck.ob("DRAW", f"{label}::draw_integers:masked", okp,
           f"{label}::draw_integers: every returned integer is an output of next() masked with domain_size - 1", loc=f.loc())
